@@ -172,6 +172,37 @@ def proof_gate(prop):
     else:
         info["props_ok"] = False
         info["props_log"] = "missing " + pf
+    # tie by translation: theorems about the functions regenerated from /repo's current source (tools/pytrans.py)
+    tf = os.path.join(coq, "Props", prop + "_tie.v")
+    info["tie"] = None
+    if os.path.exists(tf):
+        src = open(tf).read()
+        names = re.findall(r"^\s*(?:Theorem|Lemma|Corollary|Example)\s+(\w+)", src, re.M)
+        info["theorems"] = info["theorems"] + names
+        info["obligations"] += len(names)
+        p = subprocess.run("ulimit -s unlimited 2>/dev/null; cd %s && timeout 900 coqc -Q . Physt Props/%s_tie.v" % (coq, prop),
+                           shell=True, capture_output=True, text=True)
+        errs = []
+        for f in sorted(os.listdir(os.path.join(coq, "Gen"))) if os.path.isdir(os.path.join(coq, "Gen")) else []:
+            if f.endswith(".err"): errs.append(f + ": " + open(os.path.join(coq, "Gen", f)).read().strip())
+        tie_ok = p.returncode == 0
+        info["tie"] = dict(ok=tie_ok, theorems=names, translator_errors=errs,
+                           generated=sorted(f for f in os.listdir(os.path.join(coq, "Gen")) if f.endswith(".v")) if os.path.isdir(os.path.join(coq, "Gen")) else [])
+        if tie_ok:
+            info["discharged"] += len(names)
+            closed = len(re.findall(r"Closed under the global context", p.stdout))
+            ax = set(info["assumptions"].get("axioms", []))
+            for b in re.split(r"(?=Closed under the global context|Axioms:)", p.stdout):
+                if b.startswith("Axioms:"):
+                    for m in re.finditer(r"^([\w.']+)\s*:", b[7:], re.M): ax.add(m.group(1))
+            info["assumptions"] = dict(closed_theorems=info["assumptions"].get("closed_theorems", 0) + closed, axioms=sorted(ax))
+        else:
+            info["props_ok"] = False
+            tail = ""
+            try: tail = open(os.path.join(coq, ".tie.log")).read()[-2500:]
+            except OSError: pass
+            info["props_log"] = (info.get("props_log", "")[-1500:] + "\nTIE BROKEN: Props/%s_tie.v no longer checks against the functions translated from the current source of /repo.\ntranslator: %s\n%s\n%s"
+                                 % (prop, "; ".join(errs) or "ok", (p.stdout + p.stderr)[-2500:], tail))
     info["wall_s"] = round(time.time() - t0, 1)
     return info
 
@@ -368,7 +399,11 @@ def main(argv=None):
     if proof_broken and not violations:
         os.makedirs(os.path.join(ROOT, "replays"), exist_ok=True)
         path = os.path.join(ROOT, "replays", "%s-proof.json" % a.prop)
-        json.dump(dict(property=a.prop, kind="proof", theorem_or_corr="Props/%s.v (or the development it depends on) no longer checks" % a.prop,
+        tie = gate.get("tie")
+        what = ("Props/%s_tie.v: the theorems %s no longer check against the functions that tools/pytrans.py translates from the current source of /repo (coq/Gen/*.v)%s"
+                % (a.prop, ", ".join(tie["theorems"]), "; translator: " + "; ".join(tie["translator_errors"]) if tie["translator_errors"] else "")
+                if tie and not tie["ok"] else "Props/%s.v (or the development it depends on) no longer checks" % a.prop)
+        json.dump(dict(property=a.prop, kind="proof", theorem_or_corr=what,
                        forbidden=gate["forbidden"], build_ok=gate["build_ok"], log=gate.get("props_log", "") + gate.get("build_log", "")),
                   open(path, "w"), indent=1)
         violations.append((path, " no-failing-input-found"))
